@@ -363,6 +363,15 @@ def seat_check(prop, tier, seed, work, replay):
         elif desc["kind"] in ("seat-explore", "seat-driver"):
             out = os.path.join(d, "out.ndjson")
             vlib.drive(binary, desc["args"] + ["-o", out], timeout=3600)
+        elif desc["kind"] == "table-driver":
+            out = os.path.join(d, "out.ndjson")
+            vlib.drive(binary, desc["args"] + ["-o", out], timeout=3600)
+            r = vlib.validate(work, [out], "TableTrace.tla", [prop], nchunks=4, heap="3g")
+            if any(x["clause"] == desc["clause"] for x in r["viol"]):
+                print("VIOLATION property=%s replay=%s" % (prop, replay))
+                return 1
+            print("replay of %s: clause %s holds" % (replay, desc["clause"]))
+            return 0
         else:
             out = os.path.join(d, "out.ndjson")
             vlib.drive(binary, ["seat-conc", "-runs", desc["runs"], "-seed", desc["seed"], "-o", out])
@@ -405,6 +414,14 @@ def seat_check(prop, tier, seed, work, replay):
     scr = os.path.join(d, "random.scripts")
     stats["random"] = vlib.drive(binary, ["seat-random", "-runs", T["random_runs"], "-steps", T["steps"], "-seed", seed, "-o", f, "-scripts", scr])
     files[f] = dict(kind="seat-script", scripts=scr)
+    # the committed corpus: one script for every signature class of calls met while enumerating the 3..6-seat graphs
+    # (corpus/seat/README), replayed with a late-joiner run behind every script that ends with an empty seat in the blinds zone
+    corpus = os.path.join(vlib.VERIF, "corpus", "seat", "all.ndjson")
+    if os.path.exists(corpus):
+        f = os.path.join(d, "corpus.ndjson")
+        cargs = ["seat-replay", "-scripts", corpus, "-latejoin"]
+        stats["corpus"] = vlib.drive(binary, cargs + ["-o", f])
+        files[f] = dict(kind="seat-driver", args=cargs)
     simf = os.path.join(d, "sim.scripts")
     nsim = seat_sim_scripts(work, T["sim_num"], seed, simf)
     f = os.path.join(d, "sim.ndjson")
@@ -422,6 +439,20 @@ def seat_check(prop, tier, seed, work, replay):
         files[f] = dict(kind="seat-conc", runs=T["conc_runs"], seed=seed)
     res = vlib.validate(work, sorted(files), "SeatTrace.tla", [prop], nchunks=max(4, vlib.NCPU // 2), heap="3g", maxviol=200)
     log("[val] %d lines, %d failed clauses, %d drift, %.0fs" % (res["lines"], len(res["viol"]), len(res["drift"]), res["tlc_s"]))
+    if prop == "C08":
+        # the seat manager as the TABLE uses it (table/internal.go: Next after every hand, busted players reserved, late joiners):
+        # the line on which a new hand appears shows the seat manager right after its successful move (TableTrace.tla)
+        tf = os.path.join(d, "table.ndjson")
+        targs = ["table-random", "-runs", 120 if tier == "quick" else 2500, "-seed", seed]
+        stats["table"] = vlib.drive(binary, targs + ["-o", tf], timeout=3600)
+        tres = vlib.validate(work, [tf], "TableTrace.tla", [prop], nchunks=max(4, vlib.NCPU // 2), heap="3g", maxviol=200)
+        log("[val] table-random: %d lines, %d failed clauses, %d drift" % (tres["lines"], len(tres["viol"]), len(tres["drift"])))
+        files[tf] = dict(kind="table-driver", args=[str(a) for a in targs])
+        res["viol"] += tres["viol"]
+        res["drift"] += tres["drift"]
+        res["lines"] += tres["lines"]
+        for k, c in tres["cnt"].items():
+            res["cnt"][k] = res["cnt"].get(k, 0) + c
 
     def sig(v, line, rs):
         return "%s|op=%s" % (v["clause"], (line or {}).get("op", (line or {}).get("kind")))
@@ -447,6 +478,12 @@ def seat_check(prop, tier, seed, work, replay):
             desc.update(args=info["args"])
             out = os.path.join(dd, "out.ndjson")
             vlib.drive(binary, info["args"] + ["-o", out])
+        elif info["kind"] == "table-driver":
+            desc.update(args=info["args"])
+            out = os.path.join(dd, "out.ndjson")
+            vlib.drive(binary, info["args"] + ["-o", out], timeout=3600)
+            r = vlib.validate(work, [out], "TableTrace.tla", [prop], nchunks=4, heap="3g", maxviol=200)
+            return any(x["clause"] == v["clause"] for x in r["viol"]), desc
         else:
             desc.update(runs=info["runs"], seed=info["seed"])
             out = os.path.join(dd, "out.ndjson")
@@ -478,7 +515,7 @@ def seat_check(prop, tier, seed, work, replay):
     vlib.write_evidence(prop, tier, seed, coverage, time.time() - t0, nviol,
                         assumptions=["projection drv_seat.go", "every Join uses a fresh player id (the manager does not know player identity)",
                                      "C18 schedules: the gate hook decides check/commit interleavings of Join; the Go memory model is not explored"])
-    need = {"C08": ["C08.positions.n2", "C08.positions.n3", "C08.lateJoiner", "C08.lateJoiner.dealtIn"],
+    need = {"C08": ["C08.positions.n2", "C08.positions.n3", "C08.lateJoiner", "C08.lateJoiner.dealtIn", "C08.positions.viaTable"],
             "C17": ["C17.button", "C17.insufficient"],
             "C18": ["C18.joinAny", "C18.joinAny.full", "conc.episodes", "conc.blockedOnMutex", "conc.sameSeat", "op.MT.Apply.ok"]}[prop]
     missing = [a for a in need if cnt.get(a, 0) == 0]
@@ -687,14 +724,15 @@ def line_check(prop, tier, seed, work, replay, module, driver, driver_flags, mc_
     out, st = run_on(scripts, d, driver_flags)
     res = vlib.validate(work, [out], module, [prop], nchunks=max(4, vlib.NCPU // 2), heap="3g", independent=independent, timeout=3600)
     log("[val] %d lines, %d failed clauses, %d drift, %.0fs" % (res["lines"], len(res["viol"]), len(res["drift"]), res["tlc_s"]))
-    xout, xst = None, None
-    if extra:
-        xdriver, xargs, xmodule = extra
-        xout = os.path.join(d, "extra.ndjson")
+    xst = {}
+    extras = {}   # trace file -> (full driver command, trace module)
+    for xi, (xdriver, xargs, xmodule) in enumerate([extra] if isinstance(extra, tuple) else (extra or [])):
+        xout = os.path.join(d, "extra%d.ndjson" % xi)
         xfull = [xdriver] + [str(a) for a in xargs]
-        xst = vlib.drive(binary, xfull + ["-o", xout], timeout=3600)
+        xst[xdriver] = vlib.drive(binary, xfull + ["-o", xout], timeout=3600)
         xres = vlib.validate(work, [xout], xmodule, [prop], nchunks=max(4, vlib.NCPU // 2), heap="3g", timeout=3600)
         log("[val] %s: %d lines, %d failed clauses, %d drift" % (xdriver, xres["lines"], len(xres["viol"]), len(xres["drift"])))
+        extras[xout] = (xfull, xmodule)
         res["viol"] += xres["viol"]
         res["drift"] += xres["drift"]
         res["lines"] += xres["lines"]
@@ -705,12 +743,13 @@ def line_check(prop, tier, seed, work, replay, module, driver, driver_flags, mc_
         return "%s|op=%s" % (v["clause"], (line or {}).get("op"))
 
     def repro(v, line, rs):
-        if v["src"] == xout:
+        if v["src"] in extras:
+            xfull, xmodule = extras[v["src"]]
             dd = work.sub("repro")
             o2 = os.path.join(dd, "out.ndjson")
             vlib.drive(binary, xfull + ["-o", o2], timeout=3600)
-            r = vlib.validate(work, [o2], extra[2], [prop], nchunks=4, heap="3g")
-            return any(x["clause"] == v["clause"] for x in r["viol"]), dict(kind="driver", clause=v["clause"], args=xfull, module=extra[2],
+            r = vlib.validate(work, [o2], xmodule, [prop], nchunks=4, heap="3g")
+            return any(x["clause"] == v["clause"] for x in r["viol"]), dict(kind="driver", clause=v["clause"], args=xfull, module=xmodule,
                                                                               failing_line={k: line[k] for k in line if k in ("op", "seat", "x", "run", "err", "stuck")})
         s = ec.find_script(scripts, line["run"])
         if s is None:
@@ -751,16 +790,34 @@ def line_check(prop, tier, seed, work, replay, module, driver, driver_flags, mc_
 
 def resume_check(prop, tier, seed, work, replay):
     def mc(work, q):
-        return [ec.model_check(work, "small" if q else "medium", ["C06"], False)]
+        return [ec.model_check(work, "small" if q else "medium", ["C06"], False), table_mc(work, q)]
     return line_check(prop, tier, seed, work, replay, "ResumeTrace.tla", "holdem-resume", ["-mode", "both", "-seed", str(seed)], mc,
-                      ["runs.always", "runs.cuts", "backendCalls", "refusedCalls", "handsClosed", "tg.handsClosed", "tg.TG.Ready", "tg.TG.Pay"], False,
+                      ["runs.always", "runs.cuts", "backendCalls", "refusedCalls", "handsClosed", "tg.handsClosed", "tg.TG.Ready", "tg.TG.Pay",
+                       "table.handsStarted", "table.handsClosed", "table.closed"], False,
                       ["complete-state equality is computed by the driver on the JSON encodings (timestamps and game id removed)",
                        "the backend instance is created with CreateGame and then given the same deck (nothing is dealt before the first ready)"],
                       "three instances in lock-step (in-memory, re-hydrated from JSON before every call and at scripted cut points, NativeBackend) + a second "
                       "in-memory run; in the model re-hydration is a stuttering step enabled at every wait point; plus whole hands driven through the "
                       "table layer (table/game.go: ready group, auto-next, every call through the stateless backend) in lock-step with an in-memory game "
-                      "and validated against the model TableGame.tla",
-                      extra=("tablegame-random", ["-runs", 150 if tier == "quick" else 3000, "-seed", seed], "TableGameTrace.tla"))
+                      "and validated against the model TableGame.tla; plus whole TABLES (table/table.go: seat manager, positions, a new game per hand, settlement into "
+                      "bankrolls, busted players reserved or removed, end conditions) over several hands against the model Table.tla, itself model-checked (MCTable)",
+                      extra=[("tablegame-random", ["-runs", 150 if tier == "quick" else 3000, "-seed", seed], "TableGameTrace.tla"),
+                             ("table-random", ["-runs", 120 if tier == "quick" else 2500, "-seed", seed], "TableTrace.tla")])
+
+
+# the hand loop of a table (Table.tla) over the precise hand model, small scope, with the environment the drivers keep to
+TABLE_MC = {
+    True: dict(MaxSeats="3", Banks="{2, 3}", MaxGames="2", Elim='"reserve"', Joinable="FALSE", Blinds="Blinds <- BlindsBasic", MaxJoins="3", MaxOps="3",
+               S="2", BrokeMayReturn="FALSE", LeaveMidHand="FALSE"),
+    False: dict(MaxSeats="3", Banks="{1, 2, 3}", MaxGames="3", Elim='"leave"', Joinable="FALSE", Blinds="Blinds <- BlindsAnte", MaxJoins="3", MaxOps="4",
+                S="2", BrokeMayReturn="FALSE", LeaveMidHand="FALSE"),
+}
+
+
+def table_mc(work, q):
+    return generic_mc(work, "MCTable.tla", "mctable", TABLE_MC[q],
+                      invariants=["IdxOK", "PositionsOK", "ChipsOK", "CountOK", "HandHasPositions", "StartNeverRefused", "DealtInOK"],
+                      properties=["ClosedIsFinal"], view="View", timeout=3400)
 
 
 def views_check(prop, tier, seed, work, replay):
